@@ -412,16 +412,25 @@ func Apply(kind string, a *Answer, attacker, other *Zone) (*dns.Msg, bool) {
 		soa := dns.Copy(z.soa()[0])
 		m.Ns = append(m.Ns, soa)
 		m.Ns = append(m.Ns, z.sigsFor([]dns.RR{soa})...)
+		// genuine records most likely to be mistaken for a proof: the name's own record,
+		// the wrap-around (last) record and the apex record
+		qn := dns.CanonicalName(m.Question[0].Name)
+		var pick []dns.RR
 		if z.NSEC3 {
 			n := len(z.nsec3Chain())
-			for i := 0; i < 3 && i < n; i++ {
-				m.Ns = append(m.Ns, withSig(z, z.nsec3RR(i))...)
+			if own := z.nsec3Matching(qn); own != nil {
+				pick = append(pick, own)
 			}
+			pick = append(pick, z.nsec3RR(n-1), z.nsec3RR(0), z.nsec3Covering("*."+qn))
 		} else {
 			n := len(z.nsecChain())
-			for i := 0; i < 2 && i < n; i++ {
-				m.Ns = append(m.Ns, withSig(z, z.nsecAt(i))...)
+			if own := z.nsecMatching(qn); own != nil {
+				pick = append(pick, own)
 			}
+			pick = append(pick, z.nsecAt(n-1), z.nsecAt(0))
+		}
+		for _, d := range dedupRR(pick) {
+			m.Ns = append(m.Ns, withSig(z, d)...)
 		}
 		changed = true
 	case "nodata-to-nx":
